@@ -235,19 +235,13 @@ func genTab(r *hx.Rand, n int, deep bool) *hx.Case {
 
 // a large run whose bloom filter is dense enough for false positives; lookups for them are derived in Execute
 func genBig(r *hx.Rand, n int, split bool) *hx.Case {
-	var ops []json.RawMessage
-	total := 0
-	for i := 0; i < n; i++ {
-		o := op{Op: "e", K: []byte(fmt.Sprintf("m%05d", i*3+r.Intn(3))), V: r.Bytes(r.Intn(3)), Seq: uint64(i + 1), Del: r.Chance(1, 9)}
-		total += flushSize(o)
-		ops = append(ops, hx.Op(o))
-	}
+	step := r.Range(1, 4)
 	target := 0
 	if split {
-		target = total/2 + r.Range(0, 40)
+		target = n*25/2 + r.Range(0, 40) // about two tables
 	}
-	ops = append(ops, hx.Op(op{Op: "scan", K: []byte("m0001")}))
-	return &hx.Case{Name: "big", Params: map[string]any{"mode": "c17", "kind": "tab", "target": target, "deep": false, "fp": true}, Ops: ops}
+	ops := []json.RawMessage{hx.Op(op{Op: "scan", K: []byte("m0001")}), hx.Op(op{Op: "get", K: []byte("m00000")}), hx.Op(op{Op: "get", K: []byte("m")})}
+	return &hx.Case{Name: "big", Params: map[string]any{"mode": "c17", "kind": "tab", "target": target, "deep": false, "fp": true, "dense": n, "dense_step": step}, Ops: ops}
 }
 
 func genWal(r *hx.Rand, deep bool) *hx.Case {
@@ -301,7 +295,7 @@ func genWal(r *hx.Rand, deep bool) *hx.Case {
 
 func (eng) Generate(mode, tier string, r *hx.Rand) []*hx.Case {
 	var cs []*hx.Case
-	nTab, nMid, nBig, nWal := 110, 14, 1, 170
+	nTab, nMid, nBig, nWal := 110, 8, 1, 170
 	if tier == "thorough" {
 		nTab, nMid, nBig, nWal = 900, 80, 4, 1500
 	}
@@ -316,11 +310,11 @@ func (eng) Generate(mode, tier string, r *hx.Rand) []*hx.Case {
 		cs = append(cs, genTab(r.Fork(), n, true))
 	}
 	for i := 0; i < nMid; i++ {
-		cs = append(cs, genTab(r.Fork(), r.Range(70, 400), false))
+		cs = append(cs, genTab(r.Fork(), r.Range(70, 220), false))
 	}
 	for i := 0; i < nBig; i++ {
 		cs = append(cs, genBig(r.Fork(), 2500+r.Intn(300), false))
-		cs = append(cs, genBig(r.Fork(), 5000+r.Intn(300), true))
+		cs = append(cs, genBig(r.Fork(), 4600+r.Intn(300), true))
 	}
 	for i := 0; i < nWal; i++ {
 		cs = append(cs, genWal(r.Fork(), i%3 != 2))
@@ -421,6 +415,20 @@ func execTab(c *hx.Case, ops []op) (*hx.Result, error) {
 			blooms = append(blooms, nz(o.K))
 		}
 	}
+	// a dense synthetic run (bloom false-positive regime) is described by its size only, to keep cases small
+	if n := int(pInt(c, "dense")); n > 0 {
+		step := int(pInt(c, "dense_step"))
+		if step < 1 {
+			step = 1
+		}
+		for i := 0; i < n; i++ {
+			e := &ent{k: []byte(fmt.Sprintf("m%05d", i*step)), v: []byte{}, seq: uint64(i + 1), del: i%9 == 4}
+			if i%5 == 0 {
+				e.v = []byte{byte(i), byte(i >> 8)}
+			}
+			es = append(es, e)
+		}
+	}
 	// the run must be strictly key-sorted (the shrinker may delete entries, never reorder them; be safe anyway)
 	sort.SliceStable(es, func(i, j int) bool { return bytes.Compare(es[i].k, es[j].k) < 0 })
 	es = slices.CompactFunc(es, func(a, b *ent) bool { return bytes.Equal(a.k, b.k) })
@@ -462,17 +470,19 @@ func execTab(c *hx.Case, ops []op) (*hx.Result, error) {
 		reopened[i] = sst.NewTableFromDocument(fs, neverOwns{}, d)
 		sc, scFail := safeScan(t, nil)
 		rsc, rscFail := safeScan(sst.NewTableFromDocument(fs, neverOwns{}, d), nil)
-		raw := []byte{}
-		if deep && (i < 2 || i == len(tables)-1) { // raw bytes of at most three tables per case
+		cks := uint64(0)
+		if deep && (i < 2 || i == len(tables)-1) { // raw bytes of at most three tables per case, as a checksum
 			f := fs.Open(d.URI)
-			raw = make([]byte, d.Size)
+			raw := make([]byte, d.Size)
 			if _, err := f.ReadAt(raw, 0); err != nil && err != io.EOF {
 				return nil, fmt.Errorf("reading raw file: %v", err)
 			}
+			cks = cksum(raw)
 		}
-		otabs = append(otabs, fmt.Sprintf("(mkOT (mkD %s %s %d %d %d %d) %s %s %s)",
-			hx.CoqBytes([]byte(d.StartKey)), hx.CoqBytes([]byte(d.EndKey)), d.EntriesSize, d.Size, d.StartSeqNum, d.EndSeqNum,
-			coqOptEntries(sc, scFail), coqOptEntries(rsc, rscFail), hx.CoqBytes(raw)))
+		otabs = append(otabs, shared2(coqOptEntries(sc, scFail), coqOptEntries(rsc, rscFail), func(a, b string) string {
+			return fmt.Sprintf("mkOT (mkD %s %s %d %d %d %d) %s %s %d",
+				hx.CoqBytes([]byte(d.StartKey)), hx.CoqBytes([]byte(d.EndKey)), d.EntriesSize, d.Size, d.StartSeqNum, d.EndSeqNum, a, b, cks)
+		}))
 		ranges = append(ranges, rng{[]byte(d.StartKey), []byte(d.EndKey)})
 		// keys of this table (for bloom replicas): by range over the input
 		var ks [][]byte
@@ -565,7 +575,9 @@ func execTab(c *hx.Case, ops []op) (*hx.Result, error) {
 	for _, g := range tgets {
 		fr := safeGet(tables[g.t], g.k)
 		rr := safeGet(reopened[g.t], g.k)
-		lks = append(lks, fmt.Sprintf("(mkL %d %s %s %s)", g.t, hx.CoqBytes(g.k), fr.term, rr.term))
+		lks = append(lks, shared2(fr.term, rr.term, func(a, b string) string {
+			return fmt.Sprintf("mkL %d %s %s %s", g.t, hx.CoqBytes(g.k), a, b)
+		}))
 		class := "absent-between"
 		rg := ranges[g.t]
 		switch {
@@ -592,7 +604,9 @@ func execTab(c *hx.Case, ops []op) (*hx.Result, error) {
 			rall = append(rall, s...)
 			rfail = rfail || f
 		}
-		scs = append(scs, fmt.Sprintf("(mkS %s %s %s)", hx.CoqBytes(p), coqOptEntries(all, fail), coqOptEntries(rall, rfail)))
+		scs = append(scs, shared2(coqOptEntries(all, fail), coqOptEntries(rall, rfail), func(a, b string) string {
+			return fmt.Sprintf("mkS %s %s %s", hx.CoqBytes(p), a, b)
+		}))
 		tags = append(tags, "scan-"+nTag("hits", len(all)))
 	}
 	var bls []string
@@ -764,6 +778,25 @@ func safeReadAll(fs storage.FileSystem, h wal.Handle) (term string, tag string) 
 }
 
 // ---------- helpers ----------
+
+// shared2 prints a constructor application with two (usually identical) large arguments; identical arguments are
+// bound once by a let so that the term is loaded once.
+func shared2(a, b string, mk func(a, b string) string) string {
+	if a == b && len(a) > 40 {
+		return "(let x := " + a + " in " + mk("x", "x") + ")"
+	}
+	return "(" + mk(a, b) + ")"
+}
+
+// cksum: a 60-bit shift/xor checksum (Corr/Check_sstcodec.v cksum)
+func cksum(b []byte) uint64 {
+	const m = (uint64(1) << 60) - 1
+	a := uint64(7)
+	for _, x := range b {
+		a = ((a << 7) ^ (a >> 3) ^ (a + uint64(x) + 1)) & m
+	}
+	return a + 1
+}
 
 func nz(b []byte) []byte {
 	if b == nil {
